@@ -198,3 +198,19 @@ def finish(ctx, level_text, explanation, assumptions, extra_cov=None):
           f'{ctx.cov["evaluations"]} cases ({ctx.cov["distinct_nontrivial"]} distinct non-trivial), '
           f'{len(ctx.violations)} violations, broken={ctx.broken}, {ev["wall_s"]} s')
     return status
+
+
+def known_finding(ctx, pid, case, kind, detail):
+    """True (and a KNOWN-FINDING line is queued) if this failure is one of the findings listed in
+    known_findings.json; matching is structural (tools/corr/known.py), per listed id"""
+    import known
+    for k in known_findings().get('known', []):
+        if k.get('property') != pid and pid not in k.get('also', []):
+            continue
+        fn = known.MATCHERS.get(k.get('id'))
+        if fn is not None and fn(case, kind, detail):
+            line = f"{k['id']}: {k['what']}"
+            if line not in ctx.known:
+                ctx.known.append(line)
+            return True
+    return False
